@@ -76,7 +76,7 @@ package jsondb
 
 //@ fn (*writer).write(w, st) (err)
 //@   props C07
-//@   modifies heap(alloc), ghost bw.seq, ghost bw.write_seq, ghost bw.last_write, ghost bw.byte_seq, ghost bw.last_byte, ghost bw.flush_seq, ghost bw.flush_err, ghost bw.pending,
+//@   modifies heap(alloc), ghost bw.seq, ghost bw.write_seq, ghost bw.last_write, ghost bw.byte_seq, ghost bw.last_byte, ghost bw.flush_seq, ghost bw.flush_err, ghost bw.pending, ghost bw.flushes,
 //@            ghost obs.marshal_out, ghost obs.marshal_in
 //@   records wr.writes = old(wr.writes) + 1
 //@   records wr.last_target = w.target
@@ -90,7 +90,7 @@ package jsondb
 
 //@ fn (*writer).close(w) (err)
 //@   props C07
-//@   modifies w.closed, w.writer, w.file, ghost bw.seq, ghost bw.flush_seq, ghost bw.flush_err, ghost bw.pending
+//@   modifies w.closed, w.writer, w.file, ghost bw.seq, ghost bw.flush_seq, ghost bw.flush_err, ghost bw.pending, ghost bw.flushes
 //@   ensures [C07 close_flushes_pending_bytes] !old(w.closed) && old(w.writer) != nil ==> (bw.flush_seq == bw.seq && bw.seq == old(bw.seq) + 1)
 //@   ensures w.closed && (!old(w.closed) ==> (w.writer == nil && w.file == nil))
 
@@ -165,7 +165,7 @@ package jsondb
 //@ fn (*JSONDB).Write(s, status) (err)
 //@   props C06 C07
 //@   requires s.writer != nil
-//@   modifies heap(alloc), ghost bw.seq, ghost bw.write_seq, ghost bw.last_write, ghost bw.byte_seq, ghost bw.last_byte, ghost bw.flush_seq, ghost bw.flush_err, ghost bw.pending,
+//@   modifies heap(alloc), ghost bw.seq, ghost bw.write_seq, ghost bw.last_write, ghost bw.byte_seq, ghost bw.last_byte, ghost bw.flush_seq, ghost bw.flush_err, ghost bw.pending, ghost bw.flushes,
 //@            ghost obs.marshal_out, ghost obs.marshal_in, ghost wr.writes, ghost wr.last_target, ghost wr.last_err, ghost wr.last_status
 //@   ensures [C07 write_is_acknowledged_by_the_writer] wr.writes == old(wr.writes) + 1 && wr.last_err == err && wr.last_status == status && wr.last_target == s.writer.target
 
